@@ -654,12 +654,29 @@ class Merger:
                 # re-definitions.
                 Anchors.replace_anchor(self.data, lhs_anchor, rhs_anchor)
 
+    def _set_merge_result(
+        self, insert_at: YAMLPath, node_coord: NodeCoords, merged_data: Any
+    ) -> None:
+        """
+        Put a merge result where its target node is in the LHS document.
+
+        Merging mutates the target node in place except when a merge rule
+        (RIGHT, or UNIQUE re-building an Array) yields another node.  Such a
+        result must replace the target node within its parent, just as
+        _merge_dicts assigns every merged child back to its key.
+        """
+        if insert_at.is_root:
+            self.data = merged_data
+        elif (merged_data is not node_coord.node
+              and isinstance(node_coord.parent, (CommentedMap, CommentedSeq))
+        ):
+            node_coord.parent[node_coord.parentref] = merged_data
+
     def _insert_dict(
-        self, insert_at: YAMLPath,
-        lhs: Union[CommentedMap, CommentedSeq, CommentedSet],
-        rhs: CommentedMap
+        self, insert_at: YAMLPath, node_coord: NodeCoords, rhs: CommentedMap
     ) -> bool:
         """Insert an RHS dict merge result into the LHS document."""
+        lhs = node_coord.node
         merge_performed = False
         merged_data: Union[
             CommentedMap, CommentedSeq, CommentedSet
@@ -713,16 +730,14 @@ class Merger:
             .format(lhs.tag.value, rhs.tag.value))
         lhs.yaml_set_tag(rhs.tag.value)
 
-        if insert_at.is_root:
-            self.data = merged_data
+        self._set_merge_result(insert_at, node_coord, merged_data)
         return merge_performed
 
     def _insert_list(
-        self, insert_at: YAMLPath,
-        lhs: Union[CommentedMap, CommentedSeq, CommentedSet],
-        rhs: CommentedSeq
+        self, insert_at: YAMLPath, node_coord: NodeCoords, rhs: CommentedSeq
     ) -> bool:
         """Insert an RHS list merge result into the LHS document."""
+        lhs = node_coord.node
         merge_performed = False
         merged_data: Union[CommentedSeq, CommentedSet, None] = None
         if isinstance(lhs, CommentedSeq):
@@ -758,16 +773,14 @@ class Merger:
             .format(lhs.tag.value, rhs.tag.value))
         lhs.yaml_set_tag(rhs.tag.value)
 
-        if insert_at.is_root:
-            self.data = merged_data
+        self._set_merge_result(insert_at, node_coord, merged_data)
         return merge_performed
 
     def _insert_set(
-        self, insert_at: YAMLPath,
-        lhs: Union[CommentedMap, CommentedSeq, CommentedSet],
-        rhs: CommentedSet
+        self, insert_at: YAMLPath, node_coord: NodeCoords, rhs: CommentedSet
     ) -> bool:
         """Insert an RHS list merge result into the LHS document."""
+        lhs = node_coord.node
         merge_performed = False
         merged_data: Union[
             CommentedSeq, CommentedMap, CommentedSet, None] = None
@@ -803,8 +816,7 @@ class Merger:
             .format(lhs.tag.value, rhs.tag.value))
         lhs.yaml_set_tag(rhs.tag.value)
 
-        if insert_at.is_root:
-            self.data = merged_data
+        self._set_merge_result(insert_at, node_coord, merged_data)
         return merge_performed
 
     def _insert_scalar(
@@ -924,15 +936,15 @@ class Merger:
                 merge_performed = True
             elif isinstance(rhs, CommentedMap):
                 merge_performed = self._insert_dict(
-                    insert_at, target_node, rhs)
+                    insert_at, node_coord, rhs)
             elif isinstance(rhs, CommentedSeq):
                 # The RHS document root is a list
                 merge_performed = self._insert_list(
-                    insert_at, target_node, rhs)
+                    insert_at, node_coord, rhs)
             elif isinstance(rhs, CommentedSet):
                 # The RHS document is a set
                 merge_performed = self._insert_set(
-                    insert_at, target_node, rhs)
+                    insert_at, node_coord, rhs)
             else:
                 # The RHS document root is a Scalar value
                 merge_performed = self._insert_scalar(
